@@ -3,7 +3,6 @@ package sshagent
 import (
 	"bytes"
 	"encoding/base64"
-	"encoding/json"
 	"errors"
 	"fmt"
 	"net"
@@ -592,7 +591,6 @@ func c42Features(lines []ref.KHLine, hp ref.HostPort) []string {
 			}
 			continue
 		}
-		lineMatch := ref.MatchSplit(l.Names, hp)
 		for _, p := range strings.Split(l.Names, ",") {
 			if p == "" {
 				continue
@@ -616,7 +614,6 @@ func c42Features(lines []ref.KHLine, hp ref.HostPort) []string {
 				set[pre+"star-empty"] = true
 			}
 		}
-		_ = lineMatch
 	}
 	var out []string
 	for k := range set {
@@ -1297,5 +1294,3 @@ func c42Enumerate(t *testing.T, c *ev.Collector, pool *sshPool, dir string, f11L
 		c.Case(true, "witness|"+h, "witness:F11")
 	}
 }
-
-var _ = json.Marshal
